@@ -975,6 +975,31 @@ def sync_wrapper_table(ctx, rid: str) -> None:
     _tables(ctx, rid, [("_core._aiter_sync", _plain_iteration_cells)], "asyncgen", "adapter_table_cells", ALL)
 
 
+def _islice_cells():
+    shapes = [(s_,) for s_ in (0, 1, 2, 3)] + [(a, b) for a in (0, 1, 2) for b in (None, 0, 1, 2, 4)] + \
+             [(a, b, c) for a in (0, 1, 2) for b in (None, 1, 3, 4) for c in (1, 2, 3)]
+    for args in shapes:
+        for n in (0, 2, 5):
+            def oracle(args=args, n=n):
+                src = _Src(_items(0, n))
+                return _observe(lambda: _it.islice(src, *args), [src], [])
+            yield Cell(f"islice(<{n} items>, {', '.join(map(str, args))})", [("IT", 0)] + list(args), {}, {0: n}, oracle)
+
+
+def _zip_longest_cells():
+    from .lockstep import FILL
+    for slots in [(0,), (0, 1), (0, 0), (0, 1, 2), (0, 0, 1)]:
+        ids = sorted(set(slots))
+        for lens in _it.product((0, 1, 2), repeat=len(ids)):
+            lengths = dict(zip(ids, lens))
+
+            def oracle(slots=slots, lengths=lengths):
+                srcs = {k: _Src(_items(k, n)) for k, n in sorted(lengths.items())}
+                return _observe(lambda: _it.zip_longest(*[srcs[s_] for s_ in slots], fillvalue=FILL), [srcs[k] for k in sorted(srcs)], [])
+            yield Cell("zip_longest(" + ", ".join(f"it{s_}" for s_ in slots) + ") with " + ", ".join(f"len(it{k})={n}" for k, n in lengths.items()),
+                       [("IT", s_) for s_ in slots], {"fillvalue": FILL}, lengths, oracle)
+
+
 TOOLS: List[Tuple[str, Callable[[], Any]]] = [
     ("itertools.takewhile", lambda: _pred_cells(_it.takewhile)),
     ("itertools.dropwhile", lambda: _pred_cells(_it.dropwhile)),
@@ -992,6 +1017,11 @@ TOOLS: List[Tuple[str, Callable[[], Any]]] = [
     ("builtins.acallable_iterator", _callable_iter_cells),
     ("builtins._zip_inner", lambda: _zip_cells(False)),
     ("builtins._zip_inner_strict", lambda: _zip_cells(True)),
+    ("itertools.zip_longest", _zip_longest_cells),
+]
+#: tools that drive a library generator of their own (islice iterates ``enumerate(borrow(it))``): evaluated on the object model
+OBJECT_TOOLS: List[Tuple[str, Callable[[], Any]]] = [
+    ("itertools.islice", _islice_cells),
 ]
 
 STDLIB_NAME = {"builtins._zip_inner": "zip", "builtins._zip_inner_strict": "zip(strict=True)"}
@@ -1085,6 +1115,14 @@ def aggregate_tables(ctx, rid: str, fields=RESULT_AND_CALLS) -> None:
     _tables(ctx, rid, OBJECT_AGGREGATES, "coroutine", "agg_cells", fields, make_ops=factory)
 
 
+def _object_factory(ctx_, u, cell):
+    from . import objmodel
+    ops = objmodel.make_ops(ctx_, u, cell.lengths, cell.items, cell.fns)
+    ops.ranks = cell.ranks or {}
+    ops.truths = cell.truths or {}
+    return ops
+
+
 def fault_tables(ctx, rid: str, items_only: bool = False) -> None:
     """C06 as tables: every cell of the tool and aggregation tables once more per use of a source / user callable, that use failing"""
     if items_only:
@@ -1093,12 +1131,15 @@ def fault_tables(ctx, rid: str, items_only: bool = False) -> None:
         ctx.rule(rid, "fault cells, items only: for every use of a source / user callable that either side makes, with that use "
                       "raising, the items yielded and the way the tool ends equal the stdlib tool's (R06.10, shared)")
         _tables(ctx, rid, TOOLS, "asyncgen", "fault_base_cells", ITEMS_AND_END, faults=True, fault_fields=("yields", "end", "result"))
+        _tables(ctx, rid, OBJECT_TOOLS, "asyncgen", "fault_base_cells", ITEMS_AND_END, make_ops=_object_factory, faults=True,
+                fault_fields=("yields", "end", "result"))
         return
     ctx.rule(rid, "fault cells: every cell of the tool and aggregation tables is evaluated once more for each use of a source (a request "
                   "that finds it exhausted included) or of the user's callable, with exactly that use raising; the items delivered "
                   "before, the uses made (none after the failure) and the exception that ends the operation equal those of the stdlib "
                   "function executed with the same use failing")
     _tables(ctx, rid, TOOLS, "asyncgen", "fault_base_cells", USES, faults=True)
+    _tables(ctx, rid, OBJECT_TOOLS, "asyncgen", "fault_base_cells", USES, make_ops=_object_factory, faults=True)
     _tables(ctx, rid, AGGREGATES, "coroutine", "fault_base_cells", USES, faults=True)
     from . import objmodel
 
@@ -1119,6 +1160,7 @@ def tool_tables(ctx, rid: str, fields=CONSUMPTION) -> None:
                   "generator ends equal those of the stdlib tool executed on the same symbols")
     ctx.tables[f"{rid} documented deviations"] = DEVIATIONS
     _tables(ctx, rid, TOOLS, "asyncgen", "tool_cells", fields)
+    _tables(ctx, rid, OBJECT_TOOLS, "asyncgen", "tool_cells", fields, make_ops=_object_factory)
 
 
 def _tables(ctx, rid: str, tools, kind: str, counter: str, fields=ALL, make_ops=None, faults: bool = False,
